@@ -394,22 +394,26 @@ Print Assumptions C09_generated_findLastEndOfASCII_agrees.
 Theorem C09_generated_OverwriteNTruncate_agrees :
   forall (main : bytes) (start : nat) (tail : bytes),
     (start <= length main)%nat ->
-    C09Gen.OverwriteNTruncate main (Z.of_nat start) tail = GoSem.GOk (overwrite_n_truncate main start tail).
+    C09Gen.OverwriteNTruncate main (Z.of_nat start) tail =
+    GoSem.GOk (overwrite_n_truncate main start tail, C09GenEquiv.ont_main main start tail).
 Proof. exact C09GenEquiv.ont_gen_eq. Qed.
 Print Assumptions C09_generated_OverwriteNTruncate_agrees.
 
+(* CleanUTF8 overwrites its argument in place: the generated function returns (result, final contents of s) *)
 Theorem C09_generated_CleanUTF8_agrees :
-  forall s : bytes, C09Gen.CleanUTF8 s = GoSem.GOk (clean_utf8 s).
+  forall s : bytes, exists s', C09Gen.CleanUTF8 s = GoSem.GOk (clean_utf8 s, s').
 Proof. exact C09GenEquiv.clean_gen_eq. Qed.
 Print Assumptions C09_generated_CleanUTF8_agrees.
 
 (* ... hence C09_clean_utf8_prefix holds of the generated CleanUTF8 itself: on every byte string it returns a
    value that is never longer, never ends inside a character, and is the input when that is valid UTF-8. *)
 Theorem C09_generated_CleanUTF8_prefix :
-  forall s : bytes, exists r, C09Gen.CleanUTF8 s = GoSem.GOk r /\
+  forall s : bytes, exists r s', C09Gen.CleanUTF8 s = GoSem.GOk (r, s') /\
     (length r <= length s)%nat /\ ends_on_boundary r /\ (valid_utf8 s -> r = s).
 Proof.
-  exact (fun s => ex_intro _ (clean_utf8 s) (conj (C09GenEquiv.clean_gen_eq s)
-          (conj (clean_utf8_length_lemma s) (conj (clean_utf8_boundary_lemma s) (clean_utf8_valid_id_lemma s))))).
+  exact (fun s => match C09GenEquiv.clean_gen_eq s with
+                  | ex_intro _ s' E => ex_intro _ (clean_utf8 s) (ex_intro _ s' (conj E
+                      (conj (clean_utf8_length_lemma s) (conj (clean_utf8_boundary_lemma s) (clean_utf8_valid_id_lemma s)))))
+                  end).
 Qed.
 Print Assumptions C09_generated_CleanUTF8_prefix.
